@@ -66,22 +66,36 @@ static void cfg_lib_end(const char *phase, const cfg_sys_t *sys)
   CNT("ledger_checks");
 }
 
-/* ares_reinit() spawns a thread when the library is thread safe; wait until it has applied
- * the configuration (reinit_pending is cleared under the channel lock as its last step) */
-static int cfg_reinit_await(ares_channel_t *ch)
+/* ares_reinit() spawns a thread when the library is thread safe.  It is awaited before anything
+ * else happens: usually by joining it the way the next ares_reinit()/ares_destroy() would
+ * (ares_thread_join + clearing channel->reinit_thread), every eighth time by polling
+ * reinit_pending under the channel lock (bounded), which leaves the join to ares_destroy(). */
+static unsigned cfg_reinit_counter;
+static int      cfg_reinit_await(ares_channel_t *ch)
 {
   int rc = (int)ares_reinit(ch);
   int i;
-  for (i = 0; i < 400000; i++) {
+  CNT("reinit_awaited");
+  if ((cfg_reinit_counter++ & 7) != 7 && ch->reinit_thread != NULL) {
+    void *rv = NULL;
+    ares_thread_join(ch->reinit_thread, &rv);
+    ch->reinit_thread = NULL;
+    ares_channel_lock(ch);
+    if (ch->reinit_pending) {
+      vh_violation("cfg16:reinit:never-finished", "reinit thread exited with reinit_pending set");
+    }
+    ares_channel_unlock(ch);
+    return rc;
+  }
+  for (i = 0; i < 100000; i++) {
     ares_bool_t pending;
     ares_channel_lock(ch);
     pending = ch->reinit_pending;
     ares_channel_unlock(ch);
     if (!pending) {
-      CNT("reinit_awaited");
       return rc;
     }
-    usleep(i < 200 ? 20 : 200);
+    usleep(100);
   }
   vh_violation("cfg16:reinit:never-finished", "reinit_pending still set after bounded wait");
   return rc;
